@@ -738,8 +738,8 @@ of an attempt, sent at `t0`: then `D = t0 + 4000` (`C07_deadline`).  Let `evs2` 
 send-failure injections on OTHER links) such that
 
 * the attempt stays pending after every event (no REG2 accepted, no REG_ERR, not abandoned),
-* no send failure is injected for the pending link's conn id (none is queued at the start, no
-  `failNext` event for it) — socket re-creation itself always succeeds in the model,
+* no send failure and no socket re-creation failure is injected for the pending link's conn id (none
+  is queued at the start, no `failNext` / `failBind` event for it),
 * housekeeping ticks carry a positive clock.
 
 Then the reconnect branch re-sent REG1 to the pending uplink at most ONCE: the stored deadline is `D`
@@ -751,14 +751,16 @@ theorem C07_abandon_bound (s0 : Srtla.Sys.Sys F) (h0 : Startup s0) (evs1 evs2 : 
     (i D : Nat) (l : Link.FLink F)
     (hp : (runS s0 evs1).reg.pending = some i) (hD : (runS s0 evs1).reg.pendingTimeoutAt = D)
     (hl : (runS s0 evs1).links[i]? = some l) (hnf : (runS s0 evs1).failNext.contains l.core.connId = false)
+    (hnb : (runS s0 evs1).failBind.contains l.core.connId = false)
     (hun : Unanswered i (runS s0 evs1) evs2)
-    (hev : ∀ e ∈ evs2, e ≠ .failNext l.core.connId ∧ ∀ now, e = .hk now → 0 < now) :
+    (hev : ∀ e ∈ evs2, e ≠ .failNext l.core.connId ∧ ∀ now, e = .hk now → 0 < now)
+    (hevb : ∀ e ∈ evs2, e ≠ .failBind l.core.connId) :
     (runS s0 (evs1 ++ evs2)).reg.pending = some i ∧
     ((runS s0 (evs1 ++ evs2)).reg.pendingTimeoutAt = D ∨
       ∃ t, 0 < t ∧ t < D ∧ (runS s0 (evs1 ++ evs2)).reg.pendingTimeoutAt = t + 4000) ∧
     (runS s0 (evs1 ++ evs2)).reg.pendingTimeoutAt < D + 4000 ∧
     ∀ pre now post, evs2 = pre ++ Srtla.Sys.Ev.hk now :: post → now < D + 3999 := by
-  obtain ⟨hA, hticks⟩ := abandon_bound h0 i D l evs2 evs1 hp hD hl hnf hun hev
+  obtain ⟨hA, hticks⟩ := abandon_bound h0 i D l evs2 evs1 hp hD hl hnf hnb hun hev hevb
   refine ⟨hA.pending, ?_, hA.deadline_lt, hticks⟩
   obtain ⟨l', -, -, h | ⟨t, a, b, c, -⟩⟩ := hA.link
   · exact Or.inl h
@@ -790,7 +792,11 @@ example : (runS exShell ([.uplink 4000 1 ngp] ++ [.hk 5100, .client 5200 exData,
   (C07_abandon_bound exShell C07_witness_shell_startup [.uplink 4000 1 ngp] [.hk 5100, .client 5200 exData, .hk 9099]
     0 8000 ((runS exShell [.uplink 4000 1 ngp]).links[0]'(by decide +kernel)) (by decide +kernel) (by decide +kernel)
     (List.getElem?_eq_getElem _)
-    (by decide +kernel) ⟨by decide +kernel, by decide +kernel, by decide +kernel, trivial⟩
+    (by decide +kernel) (by decide +kernel) ⟨by decide +kernel, by decide +kernel, by decide +kernel, trivial⟩
+    (by
+      intro e he
+      simp only [List.mem_cons, List.not_mem_nil, or_false] at he
+      rcases he with rfl | rfl | rfl <;> simp)
     (by
       intro e he
       simp only [List.mem_cons, List.not_mem_nil, or_false] at he
